@@ -257,10 +257,14 @@ def run(prop, argv, meta_focus):
     chk = Check(prop, argv)
     thorough = chk.tier == "thorough"
     chk.translate(["bounded_queue"])
+    chk.log("translated")
     chk.coq("Properties_%s.v" % prop)
+    chk.log("coq done")
     model = chk.extract("bq", "Extract_bq.v", "bq_driver.ml", explorer=True)
+    chk.log("model extracted")
     impl = chk.build_cpp("c01_bounded_queue", [os.path.join(VERIF, "harness/conc/c01_bounded_queue.cpp"),
                                                os.path.join(VERIF, "harness/shim/dsched.cpp")], ldflags=["-ldl"])
+    chk.log("drivers built")
     rng = chk.rng
     progs = []   # (pid, k, threads, small, nostuck)
     if chk.replay:
